@@ -28,7 +28,7 @@ def run(ctx):
     ctx.tlc_mc("Aco", "SPECIFICATION ASpec\nCONSTANTS\n  D = 4\n  Levels = {1, 2, 3}\n  Ants = %d\nINVARIANT ToursValid GreedyIsGreedy "
                "WithinLevels\nPROPERTY ReinforcedExactly\nCHECK_DEADLOCK FALSE\n" % (1 if q else 2), "mc-aco",
                workers=4 if q else 10, timeout=3000)
-    runlib.run_templates(ctx, ["C19"], seeds=[ctx.seed, ctx.seed + 1, ctx.seed + 2] if q else list(range(ctx.seed, ctx.seed + 12)),
+    runlib.run_templates(ctx, ["C19"], seeds=[ctx.seed, ctx.seed + 1, ctx.seed + 2] if q else list(range(ctx.seed, ctx.seed + 5)),
                          iters=[0, 1, 8, 60] if q else [1, 8, 60, 400], templates=["ant_system", "max_min_ant_system"],
                          quick_grid=False)
     return ctx.finish(RULE)
